@@ -424,7 +424,7 @@ func realEscape(raw json.RawMessage) any {
 
 func runC08Meta(ctx *core.Ctx) {
 	forms := []string{"var", "var", "default", "split", "bare"}
-	for i := 0; i < ctx.Pick(1500, 40000); i++ {
+	for i := 0; i < ctx.Pick(1200, 40000); i++ {
 		doc := genDoc(ctx.Rng)
 		ls := leavesOf(doc)
 		var reps []replacement
@@ -449,7 +449,7 @@ func runC08Meta(ctx *core.Ctx) {
 		ctx.Count("meta-doc")
 		ctx.Add("c08meta", metaArgs{Doc: core.EncodeVal(doc), Reps: reps})
 	}
-	for i := 0; i < ctx.Pick(1500, 40000); i++ {
+	for i := 0; i < ctx.Pick(1200, 40000); i++ {
 		doc := genDoc(ctx.Rng)
 		ls := leavesOf(doc)
 		var injs []injection
